@@ -142,7 +142,10 @@ def r12_2(cx):
             if g in ('NonMonotonicOffsets', 'NonMonotonicTags') and e.kind == 'discr' and val == ('in', frozenset([1])):
                 which = MV + ('::offsets' if g.endswith('Offsets') else '::tags')
                 cl = [c for c in e.calls() if '{closure' in c.op or 'Fn' in c.op]
-                if cl and e.has_call(which):
+                # (a helper function extracted from the closure is seen inlined: the witness Option itself)
+                inl = [n for n in e.walk() if n.kind == 'agg' and n.info.get('variant') == 'Some' and len(n.args) == 1 and n.args[0].strip().kind == 'agg'
+                       and len(n.args[0].strip().args) == 3]
+                if (cl or inl) and e.has_call(which):
                     form, edge = 'nonmonotonic(%s()) is Some' % which.rsplit('::', 1)[-1], ed
         if form is None:
             cx.fail('gate:' + g, fn, fn.loc(pos.bb), 'DecodingError::%s is built on an edge whose guard is not the expected one' % g)
@@ -163,11 +166,12 @@ def r12_2(cx):
         cx.check(unavoidable and not through_fail, 'gate:' + g, fn, fn.loc(b), '%s => Err(%s); Ok is only reachable through the passing edge' % (form, g),
                  fail_detail='Ok(ret) can be reached around the %s gate (unavoidable=%s, reachable through failing edge=%s)' % (g, unavoidable, through_fail))
     # the neighbour comparison is strict: equal offsets / equal tags are allowed, decreasing ones rejected
-    cls = [c for c in prog.closures_of(fn)]
+    cls = [c for c in prog.closures_of(fn)] + [fn]
     found = False
     for c in cls:
         for pos, st in c.statements():
-            if st['k'] == 'assign' and st['rv']['k'] == 'agg' and st['rv']['variant'] == 'Some' and st['pl']['l'] == 0:
+            if st['k'] == 'assign' and st['rv']['k'] == 'agg' and st['rv']['variant'] == 'Some' and not st['pl']['p'] and \
+                    c.locals[st['pl']['l']].replace(' ', '').endswith('Option<(usize,u32,u32)>'):
                 for e, val, ed in c.facts_at(pos.bb):
                     rel = as_relation((e, val))
                     if not rel or e.kind != 'call':
